@@ -86,7 +86,9 @@ func belongs(o *Obligation, ct *Contract, prop string) bool {
 		}
 		if has(fp, "C05") {
 			// a decoder that panics or over-reads also fails to "reject with an error" (C07)
-			return prop == "C05" || (prop == "C07" && has(fp, "C07"))
+			// ... and, for the session-layer decoders, fails to treat the datagram "as if no valid
+			// response had arrived" (C04)
+			return prop == "C05" || (prop == "C07" && has(fp, "C07")) || (prop == "C04" && has(fp, "C04"))
 		}
 		return has(fp, prop)
 	}
